@@ -171,7 +171,7 @@ fn items01(tier: Tier) -> Vec<Item01> {
     let mut v = Vec::new();
     let ls: Vec<usize> = if q { vec![64, 256] } else { vec![64, 128, 256, 512] };
     let variants: Vec<(Interp, usize)> = if q {
-        vec![(Interp::Cubic, 256), (Interp::Linear, 512), (Interp::Nearest, 1024)]
+        vec![(Interp::Cubic, 256), (Interp::Cubic, 16), (Interp::Quadratic, 64), (Interp::Linear, 512), (Interp::Nearest, 1024)]
     } else {
         vec![
             (Interp::Cubic, 16),
@@ -328,12 +328,13 @@ impl Check for C01 {
                     let leak = 10f64.powf(-leak_db(window) / 20.0);
                     let beta = move |w_in: f64| leak.max(2.0 * textbook(interp, os, w_in));
                     let meta = json!({"family": "sinc", "window": window_name(window), "sinc_len": l, "cc": cc, "ratio": ratio, "rej_db": rej_db(window)});
-                    let mut variants = vec![(Kind::SI, 500usize), (Kind::SO, 512)];
+                    let mut variants = vec![(Kind::SI, 500usize, 1.0), (Kind::SO, 512, 2.0)];
                     if !q {
-                        variants.push((Kind::SI, 37));
+                        variants.push((Kind::SI, 37, 1.5));
                     }
-                    for (kind, chunk) in variants {
-                        let cfg = sinc_cfg(kind, ratio, chunk, l, os, interp, window, f_cutoff);
+                    for (kind, chunk, max_rel) in variants {
+                        let mut cfg = sinc_cfg(kind, ratio, chunk, l, os, interp, window, f_cutoff);
+                        cfg.max_rel = max_rel;
                         c01_unit::<f64>(&mut acc, &cfg, edge, &beta, amp_tol(window), &tones, journal, meta.clone())?;
                         if !(q && kind == Kind::SO) {
                             c01_unit::<f32>(&mut acc, &cfg, edge, &beta, amp_tol(window), &tones, journal, meta.clone())?;
@@ -570,8 +571,10 @@ fn c02_sinc(acc: &mut Acc, tier: Tier, window: WindowFunction, l: usize, cc: boo
     let lim = 10f64.powf(-rej_db(window) / 20.0);
     let a = 0.8;
     for &ratio in &ratios {
-        for kind in [Kind::SI, Kind::SO] {
-            let cfg = sinc_cfg(kind, ratio, if kind == Kind::SI { 500 } else { 512 }, l, 256, Interp::Cubic, window, f_cutoff);
+        for (kind, max_rel) in [(Kind::SI, 1.0), (Kind::SO, 1.0), (Kind::SI, 2.0), (Kind::SO, 1.1)] {
+            // the filter must not depend on the adjustable range
+            let mut cfg = sinc_cfg(kind, ratio, if kind == Kind::SI { 500 } else { 512 }, l, 256, Interp::Cubic, window, f_cutoff);
+            cfg.max_rel = max_rel;
             let mut u = Unit::<f64>::new(&cfg)?;
             let stop = f_cutoff as f64 * ratio.min(1.0) + tw;
             let meta = json!({"family": "sinc", "window": window_name(window), "sinc_len": l, "cc": cc, "ratio": ratio});
